@@ -47,6 +47,15 @@ pub fn anchor(features: &[&str]) -> Result<Arc<Anchor>, String> {
             return Ok(a.clone());
         }
     }
+    // one anchor build at a time per process (cargo would serialise them on the target dir anyway)
+    static BUILD: Mutex<()> = Mutex::new(());
+    let _guard = BUILD.lock().unwrap();
+    {
+        let g = ANCHORS.lock().unwrap();
+        if let Some(a) = g.as_ref().and_then(|m| m.get(&key)) {
+            return Ok(a.clone());
+        }
+    }
     let mut cmd = Command::new("cargo");
     cmd.current_dir(harness_dir())
         .args(["build", "-p", "anchor", "--offline", "--message-format=json", "--features", &key])
